@@ -68,10 +68,14 @@ def gen_history(rng, case, n_ops, change_ops=True):
             ops.append(["setMethod", n, rng.choice(["derivative", "monte-carlo"])])
         elif r < 0.95:
             ops.append(["resetMethod", n])
-        elif r < 0.98:
+        elif r < 0.975:
             ops.append(["setSize", n, rng.choice([40, 70])])
-        else:
+        elif r < 0.985:
             ops.append(["touchMc", n])
+        elif r < 0.993:
+            ops.append(["fault"])
+        else:
+            ops.append(["newGroup"])
     return ops
 
 
@@ -103,14 +107,23 @@ def run_impl(q, case, np_seed=1, mc_size=50, string_forms=True):
     reset(q)
     q.set_monte_carlo_sample_size(mc_size)
     np.random.seed(np_seed)
+    import random as _pyrandom
+    _pyrandom.seed(12345)     # results must not depend on the state of any random generator
     obs = []
     with warnings.catch_warnings():
         warnings.simplefilter("ignore")
-        objs, meas = exprgen.build_impl(q, case)
-        for m, u in zip(meas, case.get("units", [])):
-            m.unit = u
-        for o in quantity_nodes(case):
-            objs[o].recalculate()          # units were assigned after construction
+        try:
+            objs, meas = exprgen.build_impl(q, case)
+            for m, u in zip(meas, case.get("units", [])):
+                m.unit = u
+            for o in quantity_nodes(case):
+                objs[o].recalculate()          # units were assigned after construction
+            if len({id(objs[o]) for o in quantity_nodes(case)}) != len(quantity_nodes(case)):
+                raise AssertionError("two different operations returned the same result object")
+        except Exception as e:  # noqa: BLE001
+            reset(q)
+            return [{"t": "exception", "x": "{}: {} (while building the formulas)".format(
+                type(e).__name__, e)}]
         vals = [unbits(b) for b in case["vals"]]
         errs = [unbits(b) for b in case["errs"]]
         rho = []
@@ -158,6 +171,7 @@ def run_impl(q, case, np_seed=1, mc_size=50, string_forms=True):
                     c2["errs"] = [bits(x) for x in errs]
                     c2["rho"] = rho
                     saved = q.get_settings().error_method
+                    _pyrandom.seed(12345)   # same generator state as when the session's objects were made
                     o2, m2 = exprgen.build_impl(q, c2)
                     for m, u in zip(m2, case.get("units", [])):
                         m.unit = u
@@ -187,6 +201,33 @@ def run_impl(q, case, np_seed=1, mc_size=50, string_forms=True):
                     obs.append({"t": "ok"})
                 elif t == "setSize":
                     objs[op[1]].mc.sample_size = op[2]
+                    obs.append({"t": "ok"})
+                elif t == "newGroup":
+                    # unrelated new quantities and results are created (other readings), with every
+                    # random generator in the state it had when the session started
+                    _pyrandom.seed(12345)
+                    c2 = dict(case)
+                    c2["vals"] = [bits(unbits(b) * 1.25) for b in case["vals"]]
+                    c2["errs"] = [bits(unbits(b) * 3.0) for b in case["errs"]]
+                    c2["rho"], c2["raw"], c2["revise"] = [], {}, {}
+                    try:
+                        exprgen.build_impl(q, c2)
+                    except Exception:  # noqa: BLE001
+                        pass
+                    obs.append({"t": "ok"})
+                elif t == "fault":
+                    # a computation that fails inside a derivative rule (division by a quantity whose
+                    # central value is exactly 0); later answers must not depend on it
+                    try:
+                        z = q.Measurement(0.0, 0.1)
+                        bad = (meas[0] + 1) / z
+                        bad.derivative(meas[0])
+                    except Exception:  # noqa: BLE001
+                        pass
+                    try:
+                        _ = q.sqrt(meas[0] * 0 - 1).error
+                    except Exception:  # noqa: BLE001
+                        pass
                     obs.append({"t": "ok"})
                 elif t == "touchMc":
                     _ = objs[op[1]].mc.confidence
@@ -238,8 +279,11 @@ def _build_from_meas(q, case, meas):
 
 
 def model_line(case):
+    # a failed side computation is not an operation of the session state machine
+    ops = [["readDeriv", quantity_nodes(case)[0], 0] if o[0] in ("fault", "newGroup") else o
+           for o in case["ops_hist"]]
     return {"cmd": "world", "nodes": exprgen.model_nodes(case["nodes"]), "vals": case["vals"],
-            "errs": case["errs"], "rho": case["rho"], "ops": case["ops_hist"]}
+            "errs": case["errs"], "rho": case["rho"], "ops": ops}
 
 
 def hist_str(case):
@@ -263,8 +307,11 @@ def judge(what, case, obs, mod):
     last_change_nested = False
     nested = {i for i in quantity_nodes(case)
               if any(case["nodes"][j][0] in ("un", "bin", "deg") for j in case["nodes"][i][2:])}
+    model_failed = False    # after a model disagreement only the independent oracle keeps judging
     for k, (op, o, m) in enumerate(zip(case["ops_hist"], obs, outs)):
         where = "op {} {}".format(k, op[0])
+        if model_failed and op[0] != "recalc":
+            continue
         if o["t"] == "exception":
             failures.append({"signature": "{}:exception:{}:{}".format(what, op[0], o["x"].split(":")[0]),
                              "what": "{} raised {}".format(where, o["x"]), "input": hist_str(case),
@@ -279,7 +326,8 @@ def judge(what, case, obs, mod):
                                  "what": "{}: quantity reports by {} but the selection says {}".format(
                                      where, o["method"], want), "input": hist_str(case), "case": case,
                                  "clause": "method selection"})
-                break
+                model_failed = True
+                continue
             if m["t"] == "d":
                 mv, mvb = fb(m["v"])
                 me, meb = fb(m["e"])
@@ -293,7 +341,8 @@ def judge(what, case, obs, mod):
                                      "impl": [o["v"], o["e"]], "expected": [mv, me],
                                      "clause": "derivative results are a function of formula, values, "
                                                "uncertainties, correlations"})
-                    break
+                    model_failed = True
+                    continue
                 if what == "c15" and op[1] in nested:
                     nontrivial = True
             else:
@@ -305,7 +354,8 @@ def judge(what, case, obs, mod):
                                              "simulation should have been kept".format(where),
                                      "input": hist_str(case), "case": case, "op_index": k,
                                      "clause": "one simulation is kept"})
-                    break
+                    model_failed = True
+                    continue
                 prev = seen.setdefault(op[1], {})
                 if key not in tokens and pair in prev and o["e"] > 1e-9 * abs(o["v"]) + 1e-300:   # else degenerate (x - x, x / x): all draws equal
                     failures.append({"signature": "{}:mc-not-redrawn".format(what),
@@ -313,7 +363,8 @@ def judge(what, case, obs, mod):
                                              "an earlier simulation although a new one was due".format(where),
                                      "input": hist_str(case), "case": case, "op_index": k,
                                      "clause": "recalculation / sample-size change draws anew"})
-                    break
+                    model_failed = True
+                    continue
                 tokens[key] = pair
                 prev[pair] = m["s"]
         elif op[0] == "readDeriv":
@@ -324,7 +375,8 @@ def judge(what, case, obs, mod):
                                          "formula at the current values".format(where),
                                  "input": hist_str(case), "case": case, "op_index": k,
                                  "impl": o["x"], "expected": dv, "clause": "derivatives"})
-                break
+                model_failed = True
+                continue
         elif op[0] == "recalc":
             f, mine = o["fresh"], o["mine"]
             tol = lambda a, b: abs(a - b) <= 1e-9 * (abs(a) + abs(b)) + 1e-12  # noqa: E731
